@@ -1515,11 +1515,14 @@ PyObject* Records::read_sfile_header(void)
     // go back to the beginning
     rewind(mFptr);
 
-	char endbuff[4]={0};
+    // the header ends with a line holding only END; the word END can also
+    // occur inside the header text (field names, keys, values), so look for
+    // the whole line "\nEND\n"
+	char endbuff[6]={0};
     size_t count=0;
 
 	while (1) {
-        char c = fgetc(mFptr);
+        int c = fgetc(mFptr);
 
         if (EOF==c) {
             throw std::runtime_error("EOF reached before reading header end");
@@ -1529,19 +1532,20 @@ PyObject* Records::read_sfile_header(void)
 
         endbuff[0] = endbuff[1];
         endbuff[1] = endbuff[2];
+        endbuff[2] = endbuff[3];
+        endbuff[3] = endbuff[4];
 
-        endbuff[2] = c;
+        endbuff[4] = (char) c;
 
-        if (0==strncmp(endbuff,"END",3)) {
+        if (0==strncmp(endbuff,"\nEND\n",5)) {
             break;
         }
     }
 
     // we need to add
-    // 1 for the newline character
     // 1 for the empty line
 
-    count += 2;
+    count += 1;
 
     string hdr;
     hdr.resize(count);
